@@ -79,6 +79,28 @@ var c18Roots = []c18Root{
 	{"slash(control)", "root", "/", true},
 }
 
+// c18Ext is the format of the decoy files of the case being run (workers run one case at a time).
+var c18Ext = "yaml"
+
+func c18Content(ext, val string) string {
+	switch ext {
+	case "json", "jsonl":
+		if val == "invalid" {
+			return "{\"d\": \n"
+		}
+		return fmt.Sprintf("{\"d\": %q}\n", val)
+	case "toml":
+		if val == "invalid" {
+			return "d = [\n"
+		}
+		return fmt.Sprintf("d = %q\n", val)
+	}
+	if val == "invalid" {
+		return "d: [\n"
+	}
+	return "d: " + val + "\n"
+}
+
 var c18EntrySpellings = []string{"relative", "dot-slash", "absolute", "via-sub-dotdot"}
 
 type c18Vector struct {
@@ -108,17 +130,17 @@ var c18Vectors = []c18Vector{
 		return "in.yaml", c18Write(filepath.Join(root, "in.yaml"), "e: 1\n$parent: \""+tdir+"/*\"\n")
 	}, `[{"d":"A","e":1}]`},
 	{"file-symlink-relative", true, func(root, tdir string) (string, error) {
-		return "link.yaml", os.Symlink(tdir+"/decoy.yaml", filepath.Join(root, "link.yaml"))
+		return "link." + c18Ext, os.Symlink(tdir+"/decoy."+c18Ext, filepath.Join(root, "link."+c18Ext))
 	}, `[{"d":"A"}]`},
 	{"file-symlink-absolute", false, func(root, tdir string) (string, error) {
-		abs, _ := filepath.Abs(filepath.Join(root, tdir, "decoy.yaml"))
-		return "link.yaml", os.Symlink(abs, filepath.Join(root, "link.yaml"))
+		abs, _ := filepath.Abs(filepath.Join(root, tdir, "decoy."+c18Ext))
+		return "link." + c18Ext, os.Symlink(abs, filepath.Join(root, "link."+c18Ext))
 	}, ""},
 	{"file-symlink-chained", true, func(root, tdir string) (string, error) {
-		if err := os.Symlink(tdir+"/decoy.yaml", filepath.Join(root, "l2.yaml")); err != nil {
+		if err := os.Symlink(tdir+"/decoy."+c18Ext, filepath.Join(root, "l2."+c18Ext)); err != nil {
 			return "", err
 		}
-		return "l1.yaml", os.Symlink("l2.yaml", filepath.Join(root, "l1.yaml"))
+		return "l1." + c18Ext, os.Symlink("l2."+c18Ext, filepath.Join(root, "l1."+c18Ext))
 	}, `[{"d":"A"}]`},
 	{"dir-symlink-$parent", true, func(root, tdir string) (string, error) {
 		if err := os.Symlink(tdir, filepath.Join(root, "d")); err != nil {
@@ -127,18 +149,21 @@ var c18Vectors = []c18Vector{
 		return "in.yaml", c18Write(filepath.Join(root, "in.yaml"), "e: 1\n$parent: d/decoy\n")
 	}, `[{"d":"A","e":1}]`},
 	{"dir-symlink-input-path", true, func(root, tdir string) (string, error) {
-		return "d/decoy.yaml", os.Symlink(tdir, filepath.Join(root, "d"))
+		return "d/decoy." + c18Ext, os.Symlink(tdir, filepath.Join(root, "d"))
 	}, `[{"d":"A"}]`},
 	{"symlink-target-name-has-parent", true, func(root, tdir string) (string, error) {
-		if err := c18Write(filepath.Join(root, tdir, "decoy.kid.yaml"), "kid: 1\n"); err != nil {
+		if err := c18Write(filepath.Join(root, tdir, "decoy.kid."+c18Ext), map[string]string{"yaml": "kid: 1\n", "json": "{\"kid\": 1}\n", "jsonl": "{\"kid\": 1}\n", "toml": "kid = 1\n"}[c18Ext]); err != nil {
 			return "", err
 		}
-		return "k.yaml", os.Symlink(tdir+"/decoy.kid.yaml", filepath.Join(root, "k.yaml"))
+		return "k." + c18Ext, os.Symlink(tdir+"/decoy.kid."+c18Ext, filepath.Join(root, "k."+c18Ext))
 	}, `[{"d":"A","kid":1}]`},
 	{"input-path", true, func(root, tdir string) (string, error) {
-		return tdir + "/decoy.yaml", nil
+		return tdir + "/decoy." + c18Ext, nil
 	}, `[{"d":"A"}]`},
 	{"virtual-extension", true, func(root, tdir string) (string, error) {
+		if c18Ext == "json" {
+			return tdir + "/decoy.yaml", nil
+		}
 		return tdir + "/decoy.json", nil
 	}, `[{"d":"A"}]`},
 }
@@ -157,10 +182,15 @@ type c18Case struct {
 	Escaping bool
 	Outside  string // name of the directory next to the root that holds the decoy
 	SkipP    bool   // -P as well: inheritance off must not switch the confinement off
+	Ext      string // format of the decoy files ("" = yaml)
 }
 
 func (cs c18Case) String() string {
-	return fmt.Sprintf("root=%s entry=%s vector=%s escaping=%v outside-dir=%s -P=%v", cs.Root.Name, cs.Spelling, c18Vectors[cs.Vector].Name, cs.Escaping, cs.Outside, cs.SkipP)
+	ext := ""
+	if cs.Ext != "" {
+		ext = " decoy-format=" + cs.Ext
+	}
+	return fmt.Sprintf("root=%s entry=%s vector=%s escaping=%v outside-dir=%s -P=%v%s", cs.Root.Name, cs.Spelling, c18Vectors[cs.Vector].Name, cs.Escaping, cs.Outside, cs.SkipP, ext)
 }
 
 func c18Run(c *core.Ctx, cs c18Case) {
@@ -172,6 +202,11 @@ func c18Run(c *core.Ctx, cs c18Case) {
 	}
 	var all []obs
 	wit := cs.String()
+	c18Ext = "yaml"
+	if cs.Ext != "" {
+		c18Ext = cs.Ext
+	}
+	defer func() { c18Ext = "yaml" }()
 	for _, st := range c18DecoyStates {
 		T := scratchDir()
 		root := filepath.Join(T, "root")
@@ -183,16 +218,16 @@ func c18Run(c *core.Ctx, cs c18Case) {
 			tdir = "../" + cs.Outside
 		}
 		// the twin's target always holds content A; the outside decoy varies in both cases
-		c18Write(filepath.Join(root, "inside", "decoy.yaml"), "d: A\n")
+		c18Write(filepath.Join(root, "inside", "decoy."+c18Ext), c18Content(c18Ext, "A"))
 		if cs.Escaping {
 			// same-named files inside the root where a clamped "../" path would land: reading them
 			// instead would make the escape "work" and depend on whether the outside file exists
-			c18Write(filepath.Join(root, cs.Outside, "decoy.yaml"), "d: SHADOW\n")
-			c18Write(filepath.Join(root, "sub", cs.Outside, "decoy.yaml"), "d: SHADOW\n")
+			c18Write(filepath.Join(root, cs.Outside, "decoy."+c18Ext), c18Content(c18Ext, "SHADOW"))
+			c18Write(filepath.Join(root, "sub", cs.Outside, "decoy."+c18Ext), c18Content(c18Ext, "SHADOW"))
 		}
-		outside := filepath.Join(T, cs.Outside, "decoy.yaml")
+		outside := filepath.Join(T, cs.Outside, "decoy."+c18Ext)
 		if st.Name != "absent" {
-			c18Write(outside, st.Content)
+			c18Write(outside, c18Content(c18Ext, st.Name))
 		}
 		entry, err := vec.Build(root, tdir)
 		if err != nil {
@@ -235,7 +270,7 @@ func c18Run(c *core.Ctx, cs c18Case) {
 			c.Fail("harness", "inotify", wit, merr.Error())
 			return
 		}
-		for _, w := range []string{outside, filepath.Join(T, cs.Outside, "decoy.kid.yaml")} {
+		for _, w := range []string{outside, filepath.Join(T, cs.Outside, "decoy.kid."+c18Ext)} {
 			if _, err := os.Lstat(w); err == nil {
 				mon.watch(w)
 			}
@@ -327,11 +362,16 @@ func buildC18(tier string) *core.Plan {
 		for _, sp := range c18EntrySpellings {
 			for v := range c18Vectors {
 				// the outside directory is once unrelated and once a sibling whose name extends the root's name
-				cases = append(cases, c18Case{r, sp, v, true, "outside", false}, c18Case{r, sp, v, true, "root-x", false}, c18Case{r, sp, v, false, "outside", false})
+				cases = append(cases, c18Case{r, sp, v, true, "outside", false, ""}, c18Case{r, sp, v, true, "root-x", false, ""}, c18Case{r, sp, v, false, "outside", false, ""})
+				// the same escape with decoys in the other formats (each format has its own reader)
+				for _, ext := range []string{"json", "toml", "jsonl"} {
+					cases = append(cases, c18Case{r, sp, v, true, "outside", false, ext})
+				}
+				cases = append(cases, c18Case{r, sp, v, false, "outside", false, "json"})
 				switch c18Vectors[v].Name {
 				case "file-symlink-relative", "file-symlink-chained", "dir-symlink-input-path", "input-path", "virtual-extension":
 					// these reach the decoy through the input path itself, so they also work with -P
-					cases = append(cases, c18Case{r, sp, v, true, "outside", true}, c18Case{r, sp, v, false, "outside", true})
+					cases = append(cases, c18Case{r, sp, v, true, "outside", true, ""}, c18Case{r, sp, v, false, "outside", true, ""})
 				}
 			}
 		}
@@ -456,9 +496,9 @@ func buildC18(tier string) *core.Plan {
 			c.Outcome("library-escape-refused")
 		}}
 	return &core.Plan{
-		Spaces: []core.Space{cli, lib, lib2},
+		Spaces: []core.Space{cli, lib, lib2, c18ChdirSpace()},
 		Rule: "product of 5 root spellings (., name from the parent, .. from a sub-directory, absolute, and / as a control) x 4 entry spellings x 12 escape vectors ($parent relative/from a sub-directory/absolute/wildcard, file symlink relative/absolute/chained, directory symlink via $parent and via the input path, symlink whose target name has a parent, input path with .., virtual extension) " +
-			"x {escaping to an unrelated directory, escaping to a sibling directory whose name extends the root name, non-escaping twin} x 4 states of the outside decoy (content A, content B, invalid, absent)",
+			"x {escaping to an unrelated directory, escaping to a sibling directory whose name extends the root name, non-escaping twin} x 4 states of the outside decoy (content A, content B, invalid, absent); every escaping case also with the decoys in json, toml and jsonl",
 		Assumptions: []string{"an inotify watch (IN_OPEN|IN_ACCESS) on every decoy file outside the root observes opens and reads by the bkl process; stat and readlink do not raise these events and are not 'reading contents'",
 			"with -r / nothing is outside: those runs are the control showing that each vector does reach the decoy when not confined",
 			"absolute $parent and absolute symlinks are refused even inside the root (os.Root semantics); their twins are not judged"},
